@@ -136,10 +136,10 @@ class LiftCompound(Case):
     props = ("C13",)
     func = VAR + "._lift_over_chromosome_location_compound_interval"
 
-    def __init__(self, n, through_public=False):
-        self.n, self.public = n, through_public
+    def __init__(self, n, through_public=False, overlap=False):
+        self.n, self.public, self.overlap = n, through_public, overlap
         meth = "lift_over_location" if through_public else "_lift_over_chromosome_location_compound_interval"
-        self.name = f"VariantInterval.{meth}[{n} blocks, all coordinates]"
+        self.name = f"VariantInterval.{meth}[{n} blocks{' that may overlap' if overlap else ''}, all coordinates]"
         self.call = f"v.{meth}(loc)"
         if through_public:
             self.func = VAR + ".lift_over_location"
@@ -148,7 +148,11 @@ class LiftCompound(Case):
                 _placed_all(i), Iff(_covers(r, i.q), Or(*[And(a <= i.q, i.q < b) for a, b in _image(i)]))),
             "empty-iff-everything-deleted": lambda i, r: Implies(
                 _placed_all(i), Iff(class_name(r) == "_EmptyLocation", And(*[a >= b for a, b in _image(i)]))),
-            "well-formed": lambda i, r: Implies(_placed_all(i), _wf(r)),
+            # every base keeps its multiplicity: blocks that overlap (programmed frameshifts) are lifted block by
+            # block, not fused - the lifted length is the sum of the lengths of the block images
+            "length-is-sum-of-block-images": lambda i, r: Implies(
+                _placed_all(i), _len_of(r) == sum((Max(0, b - a) for a, b in _image(i)), 0)),
+            "well-formed": lambda i, r: Implies(_placed_all(i), True if self.overlap else _wf(r)),
             "strand-kept": lambda i, r: class_name(r) == "_EmptyLocation" or (
                 enum_eq(r.strand, i.strand) if hasattr(r.strand, "idx") else r.strand is i.strand),
         }
@@ -157,7 +161,7 @@ class LiftCompound(Case):
         from .gene_common import block_lists, strand_of
         v, vs, ve, l = variant(S)
         strand = strand_of(S, "strand")
-        starts, ends = block_lists(S, "loc", self.n, allow_adjacent=False)
+        starts, ends = block_lists(S, "loc", self.n, allow_adjacent=False, allow_overlap=self.overlap)
         loc = S.new(COMPOUND, starts, ends, strand)
         return NS(v=v, vs=vs, ve=ve, l=l, d=l - (ve - vs), loc=loc, starts=starts, ends=ends, q=S.int("q"),
                   strand=strand)
@@ -175,11 +179,19 @@ class LiftCompound(Case):
         return obs_loc(r)[:3]
 
 
+def _len_of(r):
+    if class_name(r) == "_EmptyLocation":
+        return 0
+    from .c02_single import blocks_of
+    return sum((e - s for s, e in blocks_of(r)), 0)
+
+
 def _placed_all(i):
     """the variant lies wholly inside one block or wholly outside all of them."""
-    inside = Or(*[And(s <= i.vs, i.ve <= e) for s, e in zip(i.starts, i.ends)])
-    outside = And(*[Or(i.ve <= s, i.vs >= e) for s, e in zip(i.starts, i.ends)])
-    return Or(inside, outside)
+    # stated block by block (no block is straddled): for pairwise disjoint blocks this is exactly 'inside one block
+    # or outside all of them'; for blocks that overlap each other it excludes a variant inside one block that cuts
+    # into another one
+    return And(*[Or(And(s <= i.vs, i.ve <= e), i.ve <= s, i.vs >= e) for s, e in zip(i.starts, i.ends)])
 
 
 def _image(i):
@@ -295,7 +307,7 @@ def _edit_model(i, k):
 
 
 CASES = [LiftSingle(), CollectionLiftSingle(), AlternativeSequence(False), AlternativeSequence(True),
-         LiftCompound(2), LiftCompound(3), LiftCompound(2, through_public=True)]
+         LiftCompound(2), LiftCompound(3), LiftCompound(2, through_public=True), LiftCompound(2, overlap=True)]
 
 CANARIES = [
     dict(name="lift-over: insertion abutting block start", props=("C13",), file="inscripta/biocantor/gene/variants.py",
